@@ -129,6 +129,7 @@ func runCheck(repo, verif, prop, tier string, verbose bool) int {
 	var solverMs int64
 	backends := map[string]int{}
 	vacuous := false
+	var vacuityProblems []string
 	for _, o := range res.obs {
 		solverMs += o.Ms
 		if o.Cover {
@@ -137,7 +138,9 @@ func runCheck(repo, verif, prop, tier string, verbose bool) int {
 				coversOK++
 			} else {
 				vacuous = true
-				fmt.Fprintf(os.Stderr, "gvc: VACUITY: %s is unreachable under the assumed contracts (%s)\n", o.Name, o.Backend)
+				// the contracts assumed along the way contradict each other on this path: the code no longer fits
+				// them (or a contract is wrong). Either way the property is not decided: reported, never a pass.
+				vacuityProblems = append(vacuityProblems, fmt.Sprintf("vacuity: %s is unreachable under the assumed contracts (%s)", o.Name, o.Backend))
 			}
 			continue
 		}
@@ -183,6 +186,7 @@ func runCheck(repo, verif, prop, tier string, verbose bool) int {
 	}
 	problems := append([]string{}, res.problems...)
 	problems = append(problems, extra.problems...)
+	problems = append(problems, vacuityProblems...)
 
 	// ---- report ----
 	uniq := map[string]bool{}
@@ -225,9 +229,7 @@ func runCheck(repo, verif, prop, tier string, verbose bool) int {
 		fmt.Fprintf(os.Stderr, "gvc: no obligations generated for %s: refusing to report success\n", prop)
 		return 3
 	}
-	if vacuous {
-		return 3
-	}
+	_ = vacuous
 
 	// ---- evidence ----
 	var funcs []string
